@@ -26,6 +26,9 @@ type OrderPlan struct {
 	Script []uint32 `json:"script,omitempty"` // explicit Fisher-Yates words, consumed loop by loop
 	Seed   uint64   `json:"seed,omitempty"`   // words beyond the script (0 = canonical beyond the script)
 	Mask   uint32   `json:"mask,omitempty"`   // non-zero: only loops at sites hashing to a set bit are permuted
+	// Sched: goroutine schedule. Every search runs as a task of the cooperative scheduler; goroutines the
+	// engine starts itself (rewritten go statements) become further tasks, and this vector decides who runs
+	Sched []uint16 `json:"sched,omitempty"`
 }
 
 type C02Case struct {
@@ -43,10 +46,13 @@ type C02Case struct {
 	// each order plan, over the same simulated home directory; stdout must be byte-identical.
 	// Warmup: other requests sent to database A before the measured calls (B stays fresh): an answer must
 	// not depend on what the database was asked before.
-	Warmup  []C02Warm `json:"warmup,omitempty"`
-	Proc    bool      `json:"separate_processes,omitempty"`
-	Markers []string  `json:"markers,omitempty"` // project marker files: the context analyzer's boost maps are walked too
-	Format  string    `json:"format,omitempty"`
+	Warmup []C02Warm `json:"warmup,omitempty"`
+	// ShareOpts: database A's calls (warm-up requests that use the case's options, and the measured ones) all
+	// pass the SAME options value, i.e. the same ContextBoosts map object, as a long-lived caller would
+	ShareOpts bool     `json:"caller_reuses_options_value,omitempty"`
+	Proc      bool     `json:"separate_processes,omitempty"`
+	Markers   []string `json:"markers,omitempty"` // project marker files: the context analyzer's boost maps are walked too
+	Format    string   `json:"format,omitempty"`
 }
 
 type C02Warm struct {
@@ -64,6 +70,7 @@ func genPlan(rt *rapid.T, label string) OrderPlan {
 	case 1, 2: // short explicit script, canonical afterwards
 		p.Script = rapid.SliceOfN(rapid.Uint32Range(0, 40), 1, 40).Draw(rt, label+"-script")
 	default:
+		p.Sched = genSchedule(rt, 60)
 		p.Seed = rapid.Uint64Range(1, 1<<20).Draw(rt, label+"-seed")
 		if rapid.IntRange(0, 2).Draw(rt, label+"-masked") == 0 {
 			p.Mask = rapid.Uint32().Draw(rt, label+"-mask")
@@ -99,6 +106,7 @@ func genC02(rt *rapid.T) C02Case {
 	c.NSuggest = rapid.SampledFrom([]int{0, 1, 3, 5}).Draw(rt, "nsugg")
 	c.A = genPlan(rt, "a")
 	c.B = genPlan(rt, "b")
+	c.ShareOpts = rapid.Bool().Draw(rt, "shareopts")
 	if !c.Shipped && rapid.IntRange(0, 2).Draw(rt, "haswarm") == 0 {
 		c.Warmup = rapid.SliceOfN(rapid.Custom(func(rt *rapid.T) C02Warm {
 			w := C02Warm{Query: c.Query, Opts: c.Opts, Entry: c.Entry}
@@ -154,6 +162,8 @@ type c02Obs struct {
 	First, Second []Res
 	Sugg          []string
 	LoadErr       string
+	SimErr        string // the cooperative run could not be completed (unsupported blocking operation in the code under test)
+	Spawned       int
 	Permuted      map[string]int
 	Loops         int
 }
@@ -197,15 +207,38 @@ func c02Observe(c C02Case, main, personal []byte, plan OrderPlan, warm []C02Warm
 		ob.LoadErr = err.Error()
 		return ob
 	}
-	for _, w := range warm {
-		func() {
-			defer func() { _ = recover() }() // a crash of a warm-up request is not this property's subject
-			_ = c02Search(db, w.Entry, w.Query, w.Opts.toDB())
-		}()
+	body := func() {
+		shared := c.Opts.toDB()
+		if shared.ContextBoosts == nil && c.ShareOpts {
+			shared.ContextBoosts = map[string]float64{}
+		}
+		pick := func(o Opts) database.SearchOptions {
+			if c.ShareOpts && len(warm) > 0 && len(optDiff(o, c.Opts)) == 0 {
+				return shared
+			}
+			return o.toDB()
+		}
+		for _, w := range warm {
+			func() {
+				defer func() { _ = recover() }() // a crash of a warm-up request is not this property's subject
+				_ = c02Search(db, w.Entry, w.Query, pick(w.Opts))
+			}()
+		}
+		ob.First = resOf(c02Search(db, c.Entry, c.Query, pick(c.Opts)))
+		ob.Second = resOf(c02Search(db, c.Entry, c.Query, pick(c.Opts)))
+		ob.Sugg = db.GetSuggestions(c.Suggest, c.NSuggest)
 	}
-	ob.First = resOf(c02Search(db, c.Entry, c.Query, c.Opts.toDB()))
-	ob.Second = resOf(c02Search(db, c.Entry, c.Query, c.Opts.toDB()))
-	ob.Sugg = db.GetSuggestions(c.Suggest, c.NSuggest)
+	rr := simrt.Run([]func(){body}, plan.Sched, 200000)
+	ob.Spawned = rr.Spawned
+	switch {
+	case rr.Deadlock:
+		ob.SimErr = "deadlock of the simulated run: " + rr.DeadlockInfo
+	case rr.OverBudget:
+		ob.SimErr = "step budget of the simulated run exceeded"
+	}
+	for _, pv := range rr.Panics {
+		panic(pv) // a crash of the engine: not this property's subject (counted by the runner)
+	}
 	p, loops, _ := simrt.OrderReport()
 	ob.Permuted = map[string]int{}
 	for k, v := range p {
@@ -351,6 +384,11 @@ func runC02(c C02Case) *Outcome {
 		o.Digest = digestOf([]any{a, b})
 		return o
 	}
+	if a.SimErr != "" || b.SimErr != "" {
+		o.Harness = "C02: " + a.SimErr + b.SimErr + " (the code under test blocks on something the simulator does not manage)"
+		return o
+	}
+	o.Probes["c02.goroutines_spawned_by_engine"] = a.Spawned + b.Spawned
 	if a.LoadErr != "" || b.LoadErr != "" {
 		if a.LoadErr != b.LoadErr {
 			return fail("load", "loading the same files gave %q under plan A and %q under plan B", a.LoadErr, b.LoadErr)
